@@ -60,6 +60,7 @@ def run(repo, rep):
     rule_absent_vectors(repo, rep)
     rule_lut_dispatch(repo, rep)
     rule_reshape_counts(repo, rep)
+    rule_round5(repo, rep)
     rep.clause("C13-h", "the scale derivation never hands the bias / scale packer a shift it asserts against (range guard of quantise_scale == 0 <= shift < 64) [rule shared with C09-a]")
     from . import c09
 
@@ -1524,3 +1525,39 @@ def rule_reshape_counts(repo, rep):
     if n < 1:
         raise AnalysisError("no np.array(list).reshape(shape) site with a symbolic element count found")
     rep.floor("C13-q", 1)
+
+
+def rule_round5(repo, rep):
+    """(r) assertions that a small slip turns into a crash for a class of valid models."""
+    from ..exprnorm import comparison
+
+    rep.clause("C13-r", "rank < 4 concatenations on axis 0 are shifted into 4-D index space like every non-negative axis; a time-major LSTM step reads an [n_batch, n_feature] slice; a scale-only "
+               "encoded tensor carries no weight compression key (the allocator asserts that equal weight keys imply equal scale keys)")
+    go = repo.mod("tflite_graph_optimiser")
+    rc = go.func("rewrite_concat_ops")
+    tests = [i_ for i_ in ast.walk(rc) if isinstance(i_, ast.If) and any(isinstance(s_, ast.Assign) and str(norm(s_.targets[0])) == "axis_4D" and "len(inp.shape)" in str(norm(s_.value)) for s_ in i_.body)]
+    if len(tests) != 1:
+        raise AnalysisError("rewrite_concat_ops: 4-D axis conversion not found")
+    rep.check(comparison(tests[0].test) == comparison(ast.parse("axis >= 0", mode="eval").body), "C13-r", "ethosu/vela/tflite_graph_optimiser.py:rewrite_concat_ops",
+              "every non-negative axis (0 included) is converted with axis + (4 - rank)", f"converted under `{str(norm(tests[0].test))}`: for rank < 4 inputs and axis 0 the extents are read from the padded batch position and "
+              "`assert ofm.shape[axis] == offset` fires (AssertionError traceback)")
+    ls = repo.mod("lstm").func("Lstm.get_feature")
+    sh = [c for c in ast.walk(ls) if isinstance(c, ast.Call) and isinstance(c.func, ast.Attribute) and c.func.attr == "set_all_shapes" and c.args and isinstance(c.args[0], ast.List)]
+    if len(sh) != 1 or len(sh[0].args[0].elts) != 2:
+        raise AnalysisError("Lstm.get_feature: slice shape not found")
+    first = sh[0].args[0].elts[0]
+    ok = isinstance(first, ast.IfExp) and str(norm(first.test)) == "self.time_major" and str(norm(first.body)) == "self.n_batch" and str(norm(first.orelse)) == "1" and str(norm(sh[0].args[0].elts[1])) == "self.n_feature"
+    rep.check(ok, "C13-r", "ethosu/vela/lstm.py:Lstm.get_feature", "the per-step slice is [n_batch if time_major else 1, n_feature]",
+              f"`{str(norm(sh[0].args[0]))}`: with n_time != n_batch the read runs past the IFM (Box assertion) or the gate shapes disagree (broadcast assertion)")
+    wc = repo.mod("weight_compressor")
+    ew = wc.func("encode_weight_and_scale_tensor")
+    so = [i_ for i_ in ast.walk(ew) if isinstance(i_, ast.If) and str(norm(i_.test)) == "not do_weights" and any(isinstance(s_, ast.Assign) and "TensorPurpose.FSBias" in str(norm(s_.value)) for s_ in i_.body)]
+    if len(so) != 1:
+        raise AnalysisError("encode_weight_and_scale_tensor: scale-only branch not found")
+    cleared = any(isinstance(s_, ast.Assign) and str(norm(s_.targets[0])) == "npu_tensor.weight_compression_config" and str(norm(s_.value)) == "None" for s_ in so[0].body)
+    ta = repo.mod("tensor_allocation")
+    asserted = any(isinstance(a_, ast.Assert) and "scale_compression_config" in str(norm(a_.test)) for a_ in ast.walk(ta.tree))
+    rep.check(cleared or not asserted, "C13-r", "ethosu/vela/weight_compressor.py:encode_weight_and_scale_tensor", "a scale-only tensor has weight_compression_config = None",
+              "the scale-only tensor keeps the cached weights' compression key with its own scale key: linear_allocate_live_ranges asserts that equal weight keys imply equal scale keys "
+              "(two operators sharing weights with different bias / scales -> AssertionError traceback)")
+    rep.floor("C13-r", 3)
